@@ -209,6 +209,7 @@ def fill_facts(tier, seed_):
     facts, meta = [], {}
     work = common.mkwork()
     n_solved = 0
+    edited_years = set()
     try:
         for year in scenarios.YEARS:
             classes = {c.form_name: c for c in F.available_forms[year]}
@@ -308,6 +309,20 @@ def fill_facts(tier, seed_):
                 fid = len(facts) + 1
                 facts.append({"fid": fid, "forms": forms, "filled": filled, "outcome": outcome, "entries": entries, "overlong": overlong})
                 meta[fid] = {"year": year, "request": request, "given": dict(ans.given), "adversarial_text": k % 3 == 1}
+                if outcome == "filled" and "nc_d-400" in solver.forms and year not in edited_years:
+                    # the same solution with the state on the D-400 edited by hand to lower case: not one of the choices of that drop-down
+                    st_text = solution_text(solver, year)
+                    m = re.search(r"(?ms)^\[nc_d-400\]\n.*?^state = ([A-Z]{2})$", st_text)
+                    if m:
+                        edited_years.add(year)
+                        st2 = st_text[:m.start(1)] + m.group(1).lower() + st_text[m.end(1):]
+                        outcome2, fake2, _f2 = run_fill(year, st2, work, "%d_%d_state" % (year, k))
+                        filled2 = [os.path.basename(x2)[:-4] for x2 in fake2.cat[1:fake2.cat.index("cat")]] if fake2.cat else []
+                        fid = len(facts) + 1
+                        facts.append({"fid": fid, "forms": forms, "filled": filled2, "outcome": outcome2, "entries": [],
+                                      "overlong": [{"form": "nc_d-400", "field": "y_d400wf_state", "len": 2, "maxlen": 0}]})
+                        meta[fid] = {"year": year, "request": request, "given": dict(ans.given), "adversarial_text": False,
+                                     "edited": "nc_d-400.state = %s" % m.group(1).lower()}
     finally:
         common.rmwork(work)
     return facts, meta
